@@ -26,7 +26,6 @@ import (
 	"time"
 
 	"cosmossdk.io/log"
-	sdkmath "cosmossdk.io/math"
 	abci "github.com/cometbft/cometbft/abci/types"
 	cmted25519 "github.com/cometbft/cometbft/crypto/ed25519"
 	tmproto "github.com/cometbft/cometbft/proto/tendermint/types"
@@ -152,12 +151,7 @@ func abciGenesis(app *simapp.SimApp, actors []sdk.AccAddress) []byte {
 	gs := app.DefaultGenesis()
 	valPub := cmted25519.GenPrivKeyFromSecret([]byte("verif-c11-validator")).PubKey()
 	valSet := cmttypes.NewValidatorSet([]*cmttypes.Validator{cmttypes.NewValidator(valPub, 1)})
-	bal := sdk.NewCoins(
-		sdk.NewCoin("stake", sdkmath.NewInt(1_000_000_000_000)),
-		sdk.NewCoin(rawDenom, sdkmath.NewInt(1_000_000_000)),
-		sdk.NewCoin("btc", sdkmath.NewInt(1_000_000_000)),
-		sdk.NewCoin("eth", sdkmath.NewInt(1_000_000_000)),
-	)
+	bal := actorBalances()
 	var accs []authtypes.GenesisAccount
 	var bals []banktypes.Balance
 	for _, a := range actors {
@@ -168,10 +162,7 @@ func abciGenesis(app *simapp.SimApp, actors []sdk.AccAddress) []byte {
 	if err != nil {
 		panic(err)
 	}
-	var sg servicetypes.GenesisState
-	app.AppCodec().MustUnmarshalJSON(gs2[servicetypes.ModuleName], &sg)
-	sg.Params.RestrictedServiceFeeDenom = false
-	gs2[servicetypes.ModuleName] = app.AppCodec().MustMarshalJSON(&sg)
+	gs2 = tweakGenesis(app.AppCodec(), gs2, actors[0])
 	bz, err := json.MarshalIndent(gs2, "", " ")
 	if err != nil {
 		panic(err)
